@@ -1138,6 +1138,127 @@ def sibling_one(rec, mach, cfg, ii, direction, names, level="t"):
     rec.outcome(f"sibling/{mach.name}/ok")
 
 
+# -- the same for every PDU kind and for operations beyond the listed setters: whatever is done to packet A or to the
+# caller's own PduConfig AFTER both packets were built, packet B (built from the same PduConfig, never touched) still packs
+# the octets it packed before and reports their length.  Only re-assignment of the configuration's attributes is used on the
+# caller's side (the PDUs take a shallow copy: in-place mutation of a field object the caller still holds is shared by design).
+SIB2_OPS = ["a.pack", "a.seq=same-width", "a.seq=other-width", "a.ids=same-width", "a.ids=other-width", "a.crc_flag^", "a.file_flag^",
+            "a.hdr.seg_ctrl^", "a.hdr.trans_mode^", "a.hdr.direction^", "a.hdr.segment_metadata_flag^", "a.hdr.pdu_data_field_len=",
+            "conf.crc_flag^", "conf.file_flag^", "conf.seg_ctrl^", "conf.trans_mode^", "conf.direction^", "conf.seq=new", "conf.ids=new"]
+
+
+def _flip(enum_cls, cur):
+    vals = list(enum_cls)
+    return vals[(vals.index(enum_cls(cur)) + 1) % len(vals)]
+
+
+def sib2_apply(op, a, conf):
+    """apply one operation; returns False if this tree / kind does not offer it (not judged)"""
+    hdr = a.pdu_header
+    w = hdr.pdu_conf.transaction_seq_num.byte_len
+    iw = hdr.pdu_conf.source_entity_id.byte_len
+    other = {1: 2, 2: 4, 4: 8, 8: 1}
+    B = L.ByteFieldGenerator
+    try:
+        if op == "a.pack":
+            a.pack()
+        elif op == "a.seq=same-width":
+            hdr.transaction_seq_num = B.from_int(w, 0x5A)
+        elif op == "a.seq=other-width":
+            hdr.transaction_seq_num = B.from_int(other[w], 0x5A)
+        elif op == "a.ids=same-width":
+            hdr.set_entity_ids(B.from_int(iw, 0x6B), B.from_int(iw, 0x7C))
+        elif op == "a.ids=other-width":
+            hdr.set_entity_ids(B.from_int(other[iw], 0x6B), B.from_int(other[iw], 0x7C))
+        elif op == "a.crc_flag^":
+            a.crc_flag = _flip(L.CrcFlag, a.crc_flag)
+        elif op == "a.file_flag^":
+            a.file_flag = _flip(L.LargeFileFlag, a.file_flag)
+        elif op == "a.hdr.seg_ctrl^":
+            hdr.seg_ctrl = _flip(L.SegmentationControl, hdr.seg_ctrl)
+        elif op == "a.hdr.trans_mode^":
+            hdr.transmission_mode = _flip(L.TransmissionMode, hdr.transmission_mode)
+        elif op == "a.hdr.direction^":
+            hdr.direction = _flip(L.Direction, hdr.direction)
+        elif op == "a.hdr.segment_metadata_flag^":
+            hdr.segment_metadata_flag = _flip(L.SegmentMetadataFlag, hdr.segment_metadata_flag)
+        elif op == "a.hdr.pdu_data_field_len=":
+            hdr.pdu_data_field_len = hdr.pdu_data_field_len + 3
+        elif op == "conf.crc_flag^":
+            conf.crc_flag = _flip(L.CrcFlag, conf.crc_flag)
+        elif op == "conf.file_flag^":
+            conf.file_flag = _flip(L.LargeFileFlag, conf.file_flag)
+        elif op == "conf.seg_ctrl^":
+            conf.seg_ctrl = _flip(L.SegmentationControl, conf.seg_ctrl)
+        elif op == "conf.trans_mode^":
+            conf.trans_mode = _flip(L.TransmissionMode, conf.trans_mode)
+        elif op == "conf.direction^":
+            conf.direction = _flip(L.Direction, conf.direction)
+        elif op == "conf.seq=new":
+            conf.transaction_seq_num = B.from_int(other[w], 0x11)
+        elif op == "conf.ids=new":
+            conf.source_entity_id = B.from_int(other[iw], 0x22)
+            conf.dest_entity_id = B.from_int(other[iw], 0x33)
+        else:
+            raise AssertionError(op)
+    except (AttributeError, TypeError):
+        return False
+    except Exception:
+        return True  # a refusal on A is A's own business; B is still looked at
+    return True
+
+
+def sibling2_one(rec, kind, cfg, tag, direction, ops):
+    unit = U.UNITS[kind]
+    case = {"kind": "sibling2", "unit": kind, "cfg": dict(cfg), "tag": tag, "dir": direction, "ops": list(ops)}
+    c = _cfg(cfg)
+    try:
+        p = U.norm({"cfg": c, "params": unit.param_set(tag, c)})["params"]
+        conf = U.pdu_config(c, direction)
+        ctor_a, _ha = cfdp_inputs(kind, c, copy.deepcopy(p), conf=conf)
+        ctor_b, _hb = cfdp_inputs(kind, c, copy.deepcopy(p), conf=conf)
+        a, b = ctor_a(), ctor_b()
+        before = (bytes(b.pack()), int(b.packet_len))
+    except Exception:
+        rec.count("sibling_start_not_constructible")
+        return
+    rec.case(True, ops=len(ops) + 3)
+    rec.transitions += len(ops)
+    rec.traces += 1
+    rec.count(f"sibling2_histories/{kind}")
+    for op in ops:
+        if not sib2_apply(op, a, conf):
+            rec.count("sibling2_operation_not_offered")
+            continue
+        try:
+            after = (bytes(b.pack()), int(b.packet_len))
+        except Exception as e:
+            after = ("exception", repr(e))
+        if after != before:
+            k = "reported-length!=len(pack())" if (after[0] != "exception" and len(after[0]) != after[1]) else "octets-changed"
+            rec.violation(f"C11.sibling/{kind}/untouched-packet-built-from-the-same-PduConfig/{k}/after={op}", case,
+                          {"octets": after[0], "reported_len": after[1]}, {"octets": before[0], "reported_len": before[1]},
+                          note="A and B are built from one caller-owned PduConfig; the operations are applied to A / to the caller's PduConfig only")
+            return
+    rec.outcome(f"sibling2/{kind}/ok")
+
+
+def sibling2_run(rec, item):
+    kind = item["unit"]
+    unit = U.UNITS[kind]
+    cfgs = M("EofPdu").cfgs("quick")
+    for cfg in cfgs:
+        for tag in unit.param_set_tags():
+            for direction in (0, 1):
+                for op in SIB2_OPS:
+                    sibling2_one(rec, kind, cfg, tag, direction, [op])
+                if item["depth"] >= 2:
+                    for op1 in SIB2_OPS:
+                        for op2 in SIB2_OPS:
+                            if op1 != op2:
+                                sibling2_one(rec, kind, cfg, tag, direction, [op1, op2])
+
+
 def sibling_run(rec, item):
     mach = M(item["m"])
     depth = item["depth"]
@@ -1256,13 +1377,21 @@ def explore_bfs(rec, mach, cfg, ii, init, level, depth, forms):
 # ======================================================================================================
 # purity shards: every constructor and pack() of every packet class
 # ======================================================================================================
-PURITY_UNITS = ["EofPdu", "FinishedPdu", "AckPdu", "MetadataPdu", "NakPdu", "PromptPdu", "KeepAlivePdu", "FileDataPdu",
+PURITY_UNITS = ["PduHeader", "FileDirectivePduBase", "EofPdu", "FinishedPdu", "AckPdu", "MetadataPdu", "NakPdu", "PromptPdu", "KeepAlivePdu", "FileDataPdu",
                 "PusTc", "PusTm", "Service17Tm", "Service1Tm", "TransferFrame"]
 
 
 def purity_cases(unit, tier):
     """[(plain-data case, )] for one packet class"""
     out = []
+    if unit in ("PduHeader", "FileDirectivePduBase"):
+        # the bare header classes, built directly from a caller-owned PduConfig: every flag argument x both directions
+        for ci, _cfg_ in enumerate(M("EofPdu").cfgs("quick")):
+            for ptype in (0, 1):
+                for segmeta in (0, 1):
+                    for direction in (0, 1):
+                        out.append({"kind": "purity", "unit": unit, "tier": tier, "ci": ci, "ptype": ptype, "segmeta": segmeta, "dir": direction})
+        return out
     if unit in U.PDU_KINDS:
         for ri, rcp in enumerate(U.UNITS[unit].corpus(tier)):
             for direction in (0, 1):
@@ -1291,6 +1420,17 @@ def purity_inputs(case):
 
     def mut(x):
         return None if x is None else (bytearray(x) if ba else bytes(x))
+
+    if unit in ("PduHeader", "FileDirectivePduBase"):
+        cfg = _cfg(M("EofPdu").cfgs("quick")[case["ci"]])
+        conf = U.pdu_config(cfg, case["dir"])
+        if unit == "PduHeader":
+            def build():
+                return L.PduHeader(pdu_type=L.PduType(case["ptype"]), segment_metadata_flag=L.SegmentMetadataFlag(case["segmeta"]), pdu_data_field_len=5, pdu_conf=conf)
+        else:
+            def build():
+                return L.FileDirectivePduBase(directive_code=L.DirectiveType.EOF_PDU, directive_param_field_len=3, pdu_conf=conf)
+        return build, [("pdu_conf", conf)], lambda o: o.pack()
 
     if unit in U.PDU_KINDS:
         r = U.norm(U.UNITS[unit].corpus(tier)[case["i"]])
@@ -1430,6 +1570,8 @@ def shards(tier):
         items.append({"kind": "purity", "unit": unit, "tier": tier})
     for name in SIBLING_KINDS:
         items.append({"kind": "sibling", "m": name, "depth": 2 if q else 3, "tier": tier})
+    for name in U.PDU_KINDS:
+        items.append({"kind": "sibling2", "unit": name, "depth": 1 if q else 2, "tier": tier})
     # heavy shards first so that the pool drains evenly
     items.sort(key=lambda it: 0 if (it.get("m") == "MetadataPdu" or it.get("mode") == "bfs") else 1)
     return items
@@ -1443,6 +1585,9 @@ def run_shard(item):
         return rec.result()
     if item["kind"] == "sibling":
         sibling_run(rec, item)
+        return rec.result()
+    if item["kind"] == "sibling2":
+        sibling2_run(rec, item)
         return rec.result()
     mach = M(item["m"])
     cfg = item["cfg"]
@@ -1477,6 +1622,9 @@ def replay(case):
     rec = Rec(PROPERTY, "replay")
     if case["kind"] == "purity":
         purity_one(rec, case)
+        return rec.result()
+    if case["kind"] == "sibling2":
+        sibling2_one(rec, case["unit"], case["cfg"], case["tag"], case["dir"], case["ops"])
         return rec.result()
     if case["kind"] == "sibling":
         sibling_one(rec, M(case["m"]), case["cfg"], case["init"], case["dir"], case["seq"], level="t")
